@@ -238,6 +238,7 @@ func main() {
 			}
 			c := caseT{size, chunk}
 			checkPair(c, nil, true, true)
+			checkSenderSchedule(c)
 			res.SampleSpread(int64(n), c)
 		}
 	}
@@ -277,11 +278,58 @@ func main() {
 					idx = append(idx, last+1)
 				}
 				checkPair(c, idx, cnt <= 1<<16, cnt <= 1<<22)
+				if cnt <= 1<<16 {
+					checkSenderSchedule(c)
+				}
 				res.SampleSpread(int64(n), c)
 			}
 		}
 	}
 	res.Finish()
+}
+
+// checkSenderSchedule: the lengths the sender's scheduler hands to the data-stream workers - the
+// default schedule and a re-send of every index from both re-send sites - are those of the tiling.
+func checkSenderSchedule(c caseT) {
+	cnt, _ := refCount(c.Size, c.Chunk)
+	want := func(idx uint32) uint32 {
+		rem := c.Size - int64(idx)*int64(c.Chunk)
+		if rem > int64(c.Chunk) {
+			rem = int64(c.Chunk)
+		}
+		return uint32(rem)
+	}
+	sched, before, after := transfer.VerifSenderSchedule(c.Size, c.Chunk)
+	res.Eval()
+	if uint64(len(sched)) != cnt {
+		violate("sendFileState.nextChunkToSend", "schedule-count", c, fmt.Sprintf("scheduler hands out %d chunks for size=%d chunk=%d, reference %d", len(sched), c.Size, c.Chunk, cnt))
+		return
+	}
+	var sum int64
+	for i, e := range sched {
+		sum += int64(e[1])
+		if e[0] != uint32(i) || e[1] != want(e[0]) {
+			violate("sendFileState.nextChunkToSend", "schedule-length", c, fmt.Sprintf("schedule entry %d is chunk %d of length %d for size=%d chunk=%d, reference chunk %d of length %d", i, e[0], e[1], c.Size, c.Chunk, i, want(uint32(i))))
+			return
+		}
+	}
+	if sum != c.Size {
+		violate("sendFileState.nextChunkToSend", "schedule-sum", c, fmt.Sprintf("scheduled lengths add up to %d for size=%d chunk=%d", sum, c.Size, c.Chunk))
+		return
+	}
+	for k, list := range [][][2]uint32{before, after} {
+		site := []string{"resend-before-schedule-done", "resend-after-schedule-done"}[k]
+		if uint64(len(list)) != cnt {
+			violate("sendFileState.nextChunkToSend", site+"-count", c, fmt.Sprintf("%s: %d of %d requested re-sends handed out for size=%d chunk=%d", site, len(list), cnt, c.Size, c.Chunk))
+			return
+		}
+		for i, e := range list {
+			if e[0] != uint32(i) || e[1] != want(e[0]) {
+				violate("sendFileState.nextChunkToSend", site+"-length", c, fmt.Sprintf("%s: re-sent chunk %d has length %d for size=%d chunk=%d, the tiling says chunk %d of length %d", site, e[0], e[1], c.Size, c.Chunk, i, want(uint32(i))))
+				return
+			}
+		}
+	}
 }
 
 func replay() {
@@ -308,4 +356,7 @@ func replay() {
 		idx = append(idx, last+1)
 	}
 	checkPair(c, idx, cnt <= 1<<16, cnt <= 1<<22)
+	if cnt <= 1<<16 {
+		checkSenderSchedule(c)
+	}
 }
